@@ -153,6 +153,13 @@ func tAttrName(c context, s []byte) (context, int) {
 	i, err := eatAttrName(s, 0)
 	if err != nil {
 		return context{state: stateError, err: err}, len(s)
+	} else if i > 0 && c.attr.ambiguousNameEnd {
+		// In `<a data-x{{if .C}} {{end}}onclick="..."`, the text is either a new attribute or
+		// the rest of the name.
+		return context{
+			state: stateError,
+			err:   errorf(ErrBadHTML, nil, 0, "%q may continue the attribute name %q or start a new attribute", s[:i], c.attr.name),
+		}, len(s)
 	} else if i != len(s) {
 		c.state = stateAfterName
 	}
